@@ -352,6 +352,13 @@ MarkSeen(q, fid, nonce) ==
          THEN (IF bit \in la.bits THEN q ELSE [q EXCEPT ![Len(q)] = [la EXCEPT !.bits = @ \cup {bit}, !.nonce = (@ # nonce)]])
          ELSE Append(q, [base |-> fid, bits |-> {0}, nonce |-> nonce])
 
+ForgedUid == 999      \* uid carried by forged datagrams; no submitted packet has it
+
+(* datagram_is_valid of the code, as far as the model's frames can express it (payload lengths are always
+   well-formed in the model) *)
+DatagramValid(f) == /\ (f.cpl # 0 => (f.wpl # 0 /\ f.cpl >= f.wpl))
+                    /\ f.frag <= f.last
+
 (* PacketReceiver::handle_datagram for the single datagram of the frame *)
 HandleDatagram(f) ==
     LET cb == IF chBase[f.ch] = None THEN rBase ELSE chBase[f.ch]
@@ -361,7 +368,7 @@ HandleDatagram(f) ==
         a == asm[s]
         nfr == f.last + 1
     IN
-    IF pkLead >= PW \/ pkLead < chLead THEN UNCHANGED <<asm, rAlloc, rEnd, entry, entryFlag, dataFlag, chCount, chReady, winReady>>
+    IF ~DatagramValid(f) \/ pkLead >= PW \/ pkLead < chLead THEN UNCHANGED <<asm, rAlloc, rEnd, entry, entryFlag, dataFlag, chCount, chReady, winReady>>
     ELSE
     LET \* AssemblyWindow::try_add -> <<new asm entry, new alloc, completed packet uid or -1 (0 = placeholder)>>
         res == IF a.k = "Open" THEN
@@ -370,9 +377,13 @@ HandleDatagram(f) ==
                     ELSE <<[k |-> "Active", ch |-> f.ch, wpl |-> f.wpl, cpl |-> f.cpl, last |-> f.last, got |-> {f.frag}, uid |-> f.uid, alloc |-> nfr], rAlloc + nfr, -1>>)
                ELSE IF a.k = "Closed" THEN <<a, rAlloc, -1>>
                ELSE IF f.ch # a.ch \/ f.wpl # a.wpl \/ f.cpl # a.cpl \/ f.last # a.last THEN <<a, rAlloc, -1>>
-               ELSE LET got == a.got \cup {f.frag} IN
-                    IF Cardinality(got) = a.last + 1 THEN <<[k |-> "Closed", alloc |-> a.alloc], rAlloc, a.uid>>
-                    ELSE <<[a EXCEPT !.got = got], rAlloc, -1>>
+               ELSE LET got == a.got \cup {f.frag}
+                        \* a packet assembled from fragments of different origin (possible only with a hostile peer) is
+                        \* not any submitted packet
+                        u == IF f.frag \in a.got \/ f.uid = a.uid THEN a.uid ELSE ForgedUid
+                    IN
+                    IF Cardinality(got) = a.last + 1 THEN <<[k |-> "Closed", alloc |-> a.alloc], rAlloc, u>>
+                    ELSE <<[a EXCEPT !.got = got, !.uid = u], rAlloc, -1>>
         done == res[3] # -1
         chDelta == PSub(f.pid, cb)
     IN
@@ -508,6 +519,27 @@ ForgedAcks ==
 ForgeA(f) == /\ faults > 0 /\ faults' = faults - 1
              /\ HandleAck(f)
              /\ UNCHANGED <<submitted, delivered, receiver, netD, netA>>
+
+(* ... and data / sync frames the sender model would never produce, handed to the receiver: frame ids just outside,
+   at both ends of and just inside the frame receive window; packet ids likewise around the packet window and its
+   end; every combination class of the parent leads (none, window only, both, channel without window - invalid -,
+   channel smaller than window - invalid -, leads that point at or behind the base); fragment ids and counts
+   incl. fragment id above the last id (invalid) and a fragment count above the receive allocation (placeholder).
+   A forged packet carries the uid ForgedUid, which no submitted packet has. *)
+ForgedData ==
+    {[t |-> "D", fid |-> fi, nonce |-> FALSE, pid |-> pi, ch |-> c, wpl |-> l[1], cpl |-> l[2], frag |-> fr[1], last |-> fr[2], uid |-> ForgedUid] :
+        fi \in {FSub(rfBase, 1), rfBase, FAdd(rfBase, 1), FAdd(rfBase, FW - 1), FAdd(rfBase, FW)},
+        pi \in {PSub(rBase, 1), rBase, PAdd(rBase, 1), rEnd, PAdd(rBase, PW - 1), PAdd(rBase, PW)},
+        c \in Chans,
+        l \in {<<0, 0>>, <<1, 0>>, <<1, 1>>, <<2, 1>>, <<2, 2>>, <<0, 1>>, <<1, 2>>, <<3, 3>>},
+        fr \in {<<0, 0>>, <<0, 1>>, <<1, 1>>, <<2, 1>>, <<0, 3>>}}
+ForgedSyncs ==
+    {[t |-> "S", nfid |-> nf, npid |-> np] :
+        nf \in {None, rfBase, FAdd(rfBase, 1), FAdd(rfBase, FW), FAdd(rfBase, FW + 1)},
+        np \in {None, rBase, PAdd(rBase, 1), rEnd, PAdd(rBase, PW), PAdd(rBase, PW + 1)}}
+ForgeD(f) == /\ faults > 0 /\ faults' = faults - 1
+             /\ IF f.t = "D" THEN HandleData(f) ELSE HandleSync(f)
+             /\ UNCHANGED <<submitted, delivered, sender, netD, netA>>
 
 Nonces == IF FreeNonce THEN BOOLEAN ELSE {fNext % 2 = 0}
 
